@@ -74,6 +74,32 @@ pub fn rand_layout(rng: &mut Rng, boundary: bool) -> Vec<DataItem> {
     v
 }
 
+/// a definition that fills (almost) a whole segment laid over earlier non-zero data of a physically overlapping
+/// segment: every byte of it must be (re)written, also when its size is exactly 64 KiB
+pub fn overlay_layout(rng: &mut Rng) -> Vec<DataItem> {
+    let s1: u16 = *rng.pick(&[0u16, 16, 17, 0x1000, 0x8000, 0xF000, 0xFFF0, 0xFFFF]);
+    let mut v = vec![DataItem::Set(s1)];
+    let n1 = 1 + rng.below(3000) as u16;
+    v.push(DataItem::Def(DataDef { label: Some("old".into()), word: false, kind: DK::Fill(1 + rng.below(255) as u16, n1) }));
+    v.push(DataItem::Def(DataDef { label: None, word: rng.chance(1, 2), kind: DK::Str("OLD DATA".into()) }));
+    let delta: i32 = *rng.pick(&[0i32, 0, 1, -1, 2, -16, 16, -0x100, 0x0FF0, -0x0FFF]);
+    v.push(DataItem::Set((s1 as i32 + delta) as u16));
+    let big = match rng.below(7) {
+        0 | 1 => DataDef { label: Some("big".into()), word: true, kind: DK::Zeros(32768) },
+        2 => DataDef { label: Some("big".into()), word: true, kind: DK::Zeros(32767) },
+        3 => DataDef { label: Some("big".into()), word: false, kind: DK::Zeros(65535) },
+        4 => DataDef { label: Some("big".into()), word: true, kind: DK::Fill(rng.u16(), 32768) },
+        5 => DataDef { label: Some("big".into()), word: false, kind: DK::Fill(rng.u16() & 0xFF, 65535) },
+        _ => DataDef { label: Some("big".into()), word: true, kind: DK::Zeros(32768 - rng.below(3) as u16) },
+    };
+    let room = 65536 - big.size();
+    v.push(DataItem::Def(big));
+    if room >= 1 {
+        v.push(DataItem::Def(DataDef { label: Some("tail".into()), word: false, kind: DK::Num(rng.u16() & 0xFF) }));
+    }
+    v
+}
+
 fn one(rep: &Report, data: Vec<DataItem>, rng: &Rng, core: bool, idx: usize, cli: bool) {
     let img = data_image(&data);
     // use every label as operand and through OFFSET
@@ -255,9 +281,19 @@ pub fn run(rep: &Report) {
         let d = rand_layout(&mut rng, true);
         one(rep, d, &rng, true, 10_000 + i, false);
     });
+    par_for(60, 1, |i| {
+        let mut rng = Rng::new(0xC12C).fork(i as u64);
+        let d = overlay_layout(&mut rng);
+        one(rep, d, &rng, true, 20_000 + i, i < 6);
+    });
     let t = rep.thorough();
     let n = if t { 200_000 } else { 12_000 };
     let seed = rep.seed;
+    par_for(if t { 6000 } else { 200 }, 1, |i| {
+        let mut rng = Rng::new(seed).fork(0xC12C_0000 + i as u64);
+        let d = overlay_layout(&mut rng);
+        one(rep, d, &rng, false, 200_000 + i, i % 50 == 1);
+    });
     par_for(n, 8, |i| {
         let mut rng = Rng::new(seed).fork(0xC12_0000 + i as u64);
         let boundary = i % 25 == 0;
@@ -267,4 +303,4 @@ pub fn run(rep: &Report) {
     rep.floor("layouts", rep.evals(), 1500);
 }
 
-pub const RULE: &str = "random sequences of SET/DB/DW definitions of all four kinds (scalar, zero array, filled array, string) with sizes 0..40000, full-range values, segments placing data across the 1 MiB wrap, several SETs (incl. returning to segment 0), labels on definitions, in plain and random spelling; every label is used as operand and through OFFSET. Oracle: independently computed image (2^20 zero bytes + writes) compared with VM.mem in full after the driver's loading sequence (in process and, for a sample, against the hook's memory dump of the real binary), label offsets, OFFSET constants and values loaded through label operands with DS=0; layouts steered to 65536 +- 2 bytes per segment must be diagnosed when they exceed 64 KiB. Distinct = (number of definitions, SETs, overflow, size class).";
+pub const RULE: &str = "random sequences of SET/DB/DW definitions of all four kinds (scalar, zero array, filled array, string) with sizes 0..40000, full-range values, segments placing data across the 1 MiB wrap, several SETs (incl. returning to segment 0), labels on definitions, in plain and random spelling; every label is used as operand and through OFFSET. Oracle: independently computed image (2^20 zero bytes + writes) compared with VM.mem in full after the driver's loading sequence (in process and, for a sample, against the hook's memory dump of the real binary), label offsets, OFFSET constants and values loaded through label operands with DS=0; definitions of exactly / almost 64 KiB laid over earlier non-zero data of a physically overlapping segment; layouts steered to 65536 +- 2 bytes per segment must be diagnosed when they exceed 64 KiB. Distinct = (number of definitions, SETs, overflow, size class).";
